@@ -64,7 +64,7 @@ fn pat(i: usize) -> u8 {
 pub fn scenario(ch: &mut Chooser, thorough: bool) -> Exec {
     let caps: &[usize] = if thorough { &[1, 2, 3] } else { &[1, 2] };
     let cap = *ch.of("tcp_capacity", caps);
-    let chunkings: &[&[usize]] = if thorough { &[&[2, 2], &[1, 2, 1], &[1, 1, 1, 1], &[2, 1, 2, 1]] } else { &[&[2, 2], &[1, 2, 1]] };
+    let chunkings: &[&[usize]] = if thorough { &[&[2, 2], &[1, 2, 1], &[1, 1, 1, 1], &[2, 1, 2, 1], &[1, 0, 2, 1], &[0, 2, 2, 0]] } else { &[&[2, 2], &[1, 0, 2, 1]] };
     let chunks: Vec<usize> = ch.of("chunking", chunkings).to_vec();
     let try_write = ch.flag("writer_uses_try_write");
     let close = *ch.of("close", &[Close::Shutdown, Close::Drop, Close::Keep]);
@@ -278,6 +278,16 @@ pub fn scenario(ch: &mut Chooser, thorough: bool) -> Exec {
                             st_w.borrow_mut().w_err = Some(errk(&e));
                             return Ok(());
                         }
+                    }
+                }
+            } else if data.is_empty() {
+                // an empty write is accepted as such and puts nothing into the stream
+                match s.write(&data).await {
+                    Ok(0) => {}
+                    Ok(n) => st_w.borrow_mut().w_err = Some(format!("empty write returned {n}")),
+                    Err(e) => {
+                        st_w.borrow_mut().w_err = Some(errk(&e));
+                        return Ok(());
                     }
                 }
             } else {
@@ -553,10 +563,11 @@ pub fn timed_scenario(ch: &mut Chooser, thorough: bool) -> Exec {
     let rbuf = *ch.of("read_buffer", rbufs);
     let split = ch.flag("owned_split_halves");
     let rdelay = *ch.of("readers_start_after_ms", &[0u64, 25]);
-    // 0 none, 1 hold..release, 2 partition (never repaired), 3 partition..repair
-    let fault = ch.choose("mid_stream_fault(none|hold-release|partition|partition-repair)", 4);
+    // 0 none, 1 hold..release, 2 partition (never repaired), 3 partition..repair,
+    // 4 hold, repair one step later (which leaves the held messages parked), release
+    let fault = ch.choose("mid_stream_fault(none|hold-release|partition|partition-repair|hold-repair-release)", 5);
     let fault_at = if fault == 0 { 0 } else { *ch.of("fault_before_step", if thorough { &[1usize, 2, 3, 5][..] } else { &[1usize, 3][..] }) };
-    let fault_len = if fault == 1 || fault == 3 { *ch.of("fault_lasts_steps", &[1usize, 4]) } else { 0 };
+    let fault_len = if fault == 1 || fault == 3 || fault == 4 { *ch.of("fault_lasts_steps", &[1usize, 4]) } else { 0 };
 
     let mut b = builder(1);
     b.tcp_capacity(cap).min_message_latency(std::time::Duration::from_millis(1)).max_message_latency(std::time::Duration::from_millis(9));
@@ -616,18 +627,22 @@ pub fn timed_scenario(ch: &mut Chooser, thorough: bool) -> Exec {
     for k in 0..total {
         if fault != 0 && k == fault_at {
             match fault {
-                1 => sim.hold("cli", "srv"),
+                1 | 4 => sim.hold("cli", "srv"),
                 _ => sim.partition("cli", "srv"),
             }
-            obs.push(format!("step {k}: {}", if fault == 1 { "hold" } else { "partition" }));
+            obs.push(format!("step {k}: {}", if fault == 1 || fault == 4 { "hold" } else { "partition" }));
         }
-        if (fault == 1 || fault == 3) && k == fault_at + fault_len {
-            if fault == 1 {
+        if fault == 4 && k == fault_at + 1 {
+            sim.repair("cli", "srv");
+            obs.push(format!("step {k}: repair (the link is held, not partitioned)"));
+        }
+        if (fault == 1 || fault == 3) && k == fault_at + fault_len || fault == 4 && k == fault_at + fault_len + 1 {
+            if fault == 1 || fault == 4 {
                 sim.release("cli", "srv")
             } else {
                 sim.repair("cli", "srv")
             }
-            obs.push(format!("step {k}: {}", if fault == 1 { "release" } else { "repair" }));
+            obs.push(format!("step {k}: {}", if fault == 1 || fault == 4 { "release" } else { "repair" }));
         }
         if let Err(e) = vx_core::catch(|| sim.step()).unwrap_or_else(|p| Err(p.into())) {
             violation = Some(Violation::new("sim-error", e.to_string()));
@@ -642,7 +657,7 @@ pub fn timed_scenario(ch: &mut Chooser, thorough: bool) -> Exec {
     let (c, s) = (cs.borrow(), ss.borrow());
     obs.push(format!("client: accepted {:?} consumed {:?} eof {} rerr {:?} werr {:?}", c.accepted, c.consumed, c.eof, c.rerr, c.werr));
     obs.push(format!("server: accepted {:?} consumed {:?} eof {} rerr {:?} werr {:?}", s.accepted, s.consumed, s.eof, s.rerr, s.werr));
-    if violation.is_none() && fault < 2 {
+    if violation.is_none() && (fault < 2 || fault == 4) {
         // healthy link (a hold only delays): everything accepted is read, then EOF, no errors
         let want_c: usize = c_chunks.iter().sum();
         let want_s: usize = s_chunks.iter().sum();
